@@ -296,7 +296,8 @@ fn render(m: &Model, rng: &mut Rng) -> String {
     }
     s.push_str("}\n\n");
     if !m.payloads.is_empty() {
-        s.push_str("#[typeshare]\n#[serde(tag = \"t\", content = \"c\")]\npub enum Choice {\n");
+        // lifetime parameters are not type parameters: they vanish from the declaration, the reference from the payload
+        s.push_str("#[typeshare]\n#[serde(tag = \"t\", content = \"c\")]\npub enum Choice<'a, 'b: 'a> {\n");
         for (i, t) in m.payloads.iter().enumerate() {
             if rng.chance(1, 6) {
                 s.push_str(&format!("    Pay{i}(#[typeshare(serialized_as = \"{}\")] OpaqueForeign),\n", t.render(rng, true)));
@@ -304,6 +305,7 @@ fn render(m: &Model, rng: &mut Rng) -> String {
                 s.push_str(&format!("    Pay{i}({}),\n", t.render(rng, true)));
             }
         }
+        s.push_str("    LtPay(&'a str),\n    LtRec { lt: &'b [u8] },\n");
         s.push_str("}\n\n");
     }
     for (i, t) in m.aliases.iter().enumerate() {
@@ -442,6 +444,14 @@ fn judge(case: &Case<Model>, rep: &mut Report) {
     }
     if !m.payloads.is_empty() {
         if let Some(c) = file.defs.iter().find(|d| d.name == format!("{prefix}Choice") && d.kind == DefKind::TaggedEnum) {
+            if !c.generics.is_empty() {
+                rep.violate(format!("C05|{lname}|lifetime-parameter-kept"), format!("Choice<'a, 'b> is declared with parameters {:?}", c.generics), case.detail(json!(null)));
+            }
+            if let Some(v) = c.variants.iter().find(|v| v.ident.to_lowercase().contains("ltpay")) {
+                if let Payload::Newtype(x) = &v.payload {
+                    check("payload", &Ty::Prim("&str"), x, &[], false, rep);
+                }
+            }
             for (t, v) in m.payloads.iter().zip(c.variants.iter()) {
                 if let Payload::Newtype(x) = &v.payload {
                     // an optional layer moved into markers (TS `content?:`, Python Optional[..]) vs kept in the type (Kotlin `T?`, ...)
